@@ -102,8 +102,12 @@ def main():
                 # corpus of past failures first
                 H.evaluate(comp, corpus_cases(prop, comp_name), outcome)
                 H.evaluate(comp, gen(rng, tier), outcome)
-            if proof_problems or outcome.corr_fail or outcome.harness_errors:
-                # failing-input search: the thorough generators
+            import mkanchors
+            changed_files = mkanchors.changed(H.REPO)
+            build_info["library_files_changed"] = changed_files
+            if proof_problems or outcome.corr_fail or outcome.harness_errors or changed_files:
+                # failing-input search: the thorough generators (also whenever the library differs from the version the
+                # checks were developed against: a deeper look exactly when something may have been broken)
                 if tier != "thorough" and not outcome.oracle_fail:
                     # bounded: the thorough generators, for at most VERIF_SEARCH_S seconds (default 150)
                     deadline = time.time() + float(os.environ.get("VERIF_SEARCH_S", "150"))
@@ -190,6 +194,7 @@ def main():
                 "known_findings_hit": len(known_hits),
                 "exhaustive": bool(spec.get("exhaustive", False)),
                 "translator_notes": build_info.get("translator_notes"),
+                "library_files_changed_since_baseline": build_info.get("library_files_changed"),
                 "build_seconds": round(build_s, 2),
             },
         }
